@@ -3,6 +3,32 @@
 import json, os
 VERIF = os.path.normpath(os.path.join(os.path.dirname(os.path.abspath(__file__)), ".."))
 CLAIMED = {
+ "C05": dict(
+   text="Machine-checked proof (Coq): the unit tables and converter/inventory functions are regenerated from converters.py/inventory.py on every run; theorems state that the exact tables ARE the unit definitions of the property "
+        "(SI prefixes, Ci, dpm, t=ton=Mg, u=micro), the float tables agree to 1 ulp with identical keys, kinds are disjoint, and over the reals for every data set: create-then-read-back is the identity in every unit, readings in two units differ by the defined ratio, "
+        "activity = lambda*N, moles = N/N_A, mass = moles*M, unknown units and stable-nuclide activities are refused. The float class is tied bit-for-bit (PrimFloat) by correspondence on every unit.",
+   note="Trusted: Coq kernel+vm_compute; Reals axioms; translators tr_pure/pytr/tr_tables/tr_data; PrimFloat = IEEE binary64. Float few-ulp bound decided per case (bit-exact model + 8-ulp predicate), not by a rounding theorem.",
+   technique="Coq proof about translator-generated converter functions + PrimFloat bit-exact correspondence",
+   ref="DESIGN.md section 4 C05"),
+ "C06": dict(
+   text="Machine-checked proof (Coq): the generated time table equals the property's 27 unit strings/factors/year set (float variant within 1 ulp), seconds_of(t,u) = t*factor*(days-per-year if year unit), synonyms interchangeable, unknown unit refused in every number domain, halving identity; "
+        "the wiring of every unit through decay/cumulative_decays/series/half_life is decided by an exhaustive 27-unit bit-exact correspondence and the halving predicate on the implementation.",
+   note="Trusted: as C05; half_life is hand-modelled (tie: recorded source text + exhaustive correspondence). decay(t,u)=decay(seconds,'s') is checked on the implementation for all 27 units, not proved about inventory.decay's source.",
+   technique="Coq proof about generated time conversion + exhaustive 27-unit correspondence",
+   ref="DESIGN.md section 4 C06"),
+ "C14": dict(
+   text="Machine-checked proof (Coq) about the generated fraction methods over the reals: each fraction is read-out/total, shares of a positive total of non-negative read-outs lie in [0,1] and sum to one, are invariant under scaling (read-outs are linear); "
+        "the float class is tied bit-for-bit including CPython's compensated built-in sum().",
+   note="Trusted: as C05 plus coq/Lib/Num.v pf_sum as model of CPython>=3.12 sum(). Class agreement sampled.",
+   technique="Coq proof about generated fraction functions + PrimFloat bit-exact correspondence",
+   ref="DESIGN.md section 4 C14"),
+ "C15": dict(
+   text="Machine-checked proof (Coq): exhaustive kernel-computed certificate over the shipped data (lists aligned, branching fractions decreasing, readable half-lives denote the stored duration, stable<->inf<->no progeny), half-life conversion by the exact unit ratio with a sound storage-unit shortcut, pairwise look-ups return the listed value for links and zero/empty otherwise; "
+        "exhaustive correspondence over all 1512 nuclides x 27 units x three interfaces and all in-chain pairs.",
+   note="Trusted: as C05; half_life/branching_fraction/decay_mode are hand-modelled (tie: recorded source text via tr_shapes + exhaustive bit-exact correspondence).",
+   technique="Coq proof (data certificate + query model) + exhaustive correspondence",
+   ref="DESIGN.md section 4 C15"),
+
  "C04": dict(
    text="Machine-checked proof (Coq 8.16): the exact matrices C, C^-1 and the rate matrix assembled in Coq from the listed half-lives, "
         "branching fractions and progeny satisfy C*C^-1 = I, C^-1*C = I, M*C = C*D (kernel-evaluated BigQ certificate over all 6595 non-zeros, "
